@@ -141,7 +141,7 @@ pub fn c09(opts: &Opts, out: &mut Out) {
     for &n in &[1usize, 2, 4, 8, 16, 32, 64] {
         for t in 1..=6usize {
             for rep in 0..reps {
-                let mut inst = fmrun::random_inst(n, 1, 1 << (rep % 3), t, n + t + rep, true, &mut rng);
+                let mut inst = fmrun::random_inst(n, 1, 1 << ((rep + t + n.trailing_zeros() as usize) % 3), t, n + t + rep, true, &mut rng);
                 distinct_blindings(&mut inst, &mut rng);
                 let key = inst.describe();
                 let stmt = inst.statement();
